@@ -90,7 +90,8 @@ def hosvd(  # noqa: PLR0912,PLR0913,PLR0915
     if verbosity > 0:
         print("Computing HOSVD...\n")
 
-    normxsqr = (input_tensor**2).collapse()
+    # (the norm is taken in double precision whatever the element type of the data)
+    normxsqr = input_tensor.norm() ** 2
     eigsumthresh = ((tol**2) * normxsqr) / d
 
     if verbosity > 2:
